@@ -291,7 +291,7 @@ def base_fields(rec):
             "endDateStr": b["Date Repaired or Expired"]}
 
 
-def wholerun_stage(ctx, n_quick, n_thorough, per_record, **overrides):
+def wholerun_stage(ctx, n_quick, n_thorough, per_record, per_result=None, **overrides):
     """runs generated configurations through the real simulator; trace conformance of every record
     against the Lean model; `per_record(ctx, res, rec)` evaluates the property's oracle"""
     results = run_configs(ctx, ctx.pick(n_quick, n_thorough), **overrides)
@@ -308,6 +308,8 @@ def wholerun_stage(ctx, n_quick, n_thorough, per_record, **overrides):
                 per_record(ctx, res, rec)
                 ctx.nontrivial.add(("wr", rec["repairable"], rec["intermittent"], rec["status"], rec["by"],
                                     rec["start"] < 0, min(rec["activeDays"], 40), len(rec["tags"]) > 0))
+            if per_result is not None:
+                per_result(ctx, res, recs)
             ctx.count("wholerun_configs")
             ctx.sample({"whole_run": {k: res.cfg[k] for k in ("granular", "start", "end", "n_sites", "repair_delay")},
                         "records": len(recs)}, cap=8)
